@@ -84,6 +84,20 @@ Record blockvars_tpl := {
 Record loop_options_tpl := {
   lo_directive : string; lo_keys_are_argument_names : bool; lo_empty_when_absent : bool }.
 
+(* VariableAccessTransformer.visit_Delete (malt/converters/variables.py): the statements a `del` statement is
+   replaced by.  The generated state getters read simple names directly, so they are total only as long as
+   no statement between two operator calls unbinds a name. *)
+Inductive quantifier := QAny | QAll.
+Inductive del_action :=
+| DARead              (* ag__.ld(var_)                      -- var_ bound to the target *)
+| DABindUndefined     (* var_ = ag__.Undefined(var_name)    -- var_name bound to ast.Constant(<target>.id) *)
+| DADelete.           (* del <the target alone> *)
+Record delete_rule := {
+  dr_rewritten_when : quantifier;   (* the statement is rewritten iff any / all of its targets are plain names,
+                                       otherwise it is returned unchanged *)
+  dr_name : list del_action;        (* emitted, per target and left to right, for a target that is a plain name *)
+  dr_other : list del_action }.     (* ... for any other target *)
+
 Record contract := {
   c_state : state_fns;
   c_if : stmt_tpl; c_while : stmt_tpl; c_for : stmt_tpl;
